@@ -432,7 +432,10 @@ impl Caller {
         }
         let cfg = &self.configs[lane.cfg as usize];
         let mut o = Obs::blank();
-        let mut empty: [Header<'static>; 0] = [];
+        // the uninit entry points must leave `headers` untouched unless they return Complete: the
+        // value starts out with a recognisable two-slot slice of its own
+        let pre_h = Header { name: SENT_NAME, value: SENT_VALUE };
+        let mut empty: [Header<'static>; 2] = [pre_h, pre_h];
         let empty_ptr = empty.as_ptr();
         let _ = httparse::_verif::counters::take();
         let a0 = alloc::count();
@@ -631,7 +634,7 @@ impl Caller {
             o.hash = hash;
         } else {
             if uninit {
-                if hl != 0 || hp != empty_ptr {
+                if hl != 2 || hp != empty_ptr {
                     o.flags |= F_RESTORE_BAD;
                 }
             } else if hl != cap || (cap > 0 && hp as usize != arr as usize) {
